@@ -78,6 +78,10 @@ def one_family(ctx, n, w0, z, dx, lam, methods):
                 ctx.case((api, meth, n, w0, round(z, 6)), True, rec if len(ctx.samples) < 4 else None)
                 ctx.count('%s/%s/%s' % (api, meth, 'pos' if z > 0 else 'neg'))
                 try:
+                    if (isinstance(n, int) and w0 == 6.0) or (isinstance(n, tuple) and w0 == 4.0):
+                        # the same setup in a session that computed the other imaging models first (every other propagation type, same arguments)
+                        ctx.count('after_the_other_models_of_the_same_setup/%s' % api, W.other_models_first(api, meth, u0, dx, lam, z))
+                        rec['after_other_models'] = True
                     out = W.impl(api, meth, u0, dx, lam, z, samples=(2, 2, 2, 2))
                 except Exception as e:
                     ctx.violation('%s %s raised %r' % (api, meth, e), rec, {'api': api, 'method': meth, 'what': 'raises'})
@@ -170,6 +174,8 @@ def replay(ctx, rep):
         return True
     u0 = oracle(ctx, r['n'], r['dx'], r['w0'], r['lam'], 0.0)
     ref = oracle(ctx, r['n'], r['dx'], r['w0'], r['lam'], r['z'])
+    if r.get('after_other_models'):
+        W.other_models_first(r['api'], r['method'], u0, r['dx'], r['lam'], r['z'])
     out = W.impl(r['api'], r['method'], u0, r['dx'], r['lam'], r['z'], samples=(2, 2, 2, 2))
     e = np.sum(np.abs(ref) ** 2)
     n = r['n']
